@@ -62,3 +62,54 @@ func replayC18(cfg *PropConfig, o *Obl, inputs map[string]string, root string) (
 	cmdStr := fmt.Sprintf("cd %s && REPLAY_FUNC=%s REPLAY_INPUTS='%s' go test -overlay <ov: %s -> /verif/replay_drivers/C18/replay_test.go.txt> -vet=off -count=1 -timeout 60s -run TestReplayC18 ./samehada/samehada_util/", root, fn, string(inJSON), target)
 	return strings.Contains(string(out), "REPLAY-VIOLATION"), string(out), cmdStr
 }
+
+// Replay driver for the lock manager obligations (C16, also used by the lock parts of C04/C05): no model inputs
+// (the obligations quantify over whole lock tables); the harness searches the real lock manager for a failing
+// history with a stated bound (<= 4 requests, 3 transactions, 2 rows) and compares with the abstract lock table.
+func init() {
+	for _, id := range []string{"C16", "C04", "C05"} {
+		replayDrivers[id] = replayC16
+	}
+}
+
+func replayC16(cfg *PropConfig, o *Obl, inputs map[string]string, root string) (bool, string, string) {
+	if !strings.Contains(o.Func, "storage/access::LockManager.") && !strings.Contains(o.Func, "storage/access::TransactionManager.releaseLocks") {
+		return false, "no replay driver for this function", ""
+	}
+	return runOverlayHarness(root, "/verif/replay_drivers/C16/replay_test.go.txt", filepath.Join("storage", "access"), "zz_replay_c16_test.go", "TestReplayC16", nil)
+}
+
+// runOverlayHarness injects a test file into a package of the tree under root with go test -overlay and runs it.
+func runOverlayHarness(root, tmplPath, pkgDir, fileName, testName string, env []string) (bool, string, string) {
+	tmpl, err := os.ReadFile(tmplPath)
+	if err != nil {
+		return false, err.Error(), ""
+	}
+	dir, err := os.MkdirTemp("", "govc-replay-")
+	if err != nil {
+		return false, err.Error(), ""
+	}
+	defer os.RemoveAll(dir)
+	testFile := filepath.Join(dir, fileName)
+	os.WriteFile(testFile, tmpl, 0644)
+	target := filepath.Join(root, pkgDir, fileName)
+	ov, _ := json.Marshal(map[string]map[string]string{"Replace": {target: testFile}})
+	ovFile := filepath.Join(dir, "ov.json")
+	os.WriteFile(ovFile, ov, 0644)
+	cmd := exec.Command("go", "test", "-overlay", ovFile, "-vet=off", "-count=1", "-timeout", "100s", "-run", testName, "./"+filepath.ToSlash(pkgDir)+"/")
+	cmd.Dir = root
+	cmd.Env = append(append(os.Environ(), "GOFLAGS=-mod=mod", "GOPROXY=off", "GOSUMDB=off", "GOTOOLCHAIN=local"), env...)
+	done := make(chan struct{})
+	var out []byte
+	go func() { out, _ = cmd.CombinedOutput(); close(done) }()
+	select {
+	case <-done:
+	case <-time.After(150 * time.Second):
+		if cmd.Process != nil {
+			cmd.Process.Kill()
+		}
+		<-done
+	}
+	cmdStr := fmt.Sprintf("cd %s && %s go test -overlay <ov: %s -> %s> -vet=off -count=1 -timeout 100s -run %s ./%s/", root, strings.Join(env, " "), target, tmplPath, testName, filepath.ToSlash(pkgDir))
+	return strings.Contains(string(out), "REPLAY-VIOLATION"), string(out), cmdStr
+}
